@@ -1,4 +1,6 @@
 """C06 - access rights follow key relationships."""
+from hypothesis import strategies as st
+
 from .. import hist
 from ..runner import Outcome
 
@@ -35,9 +37,16 @@ def outcome_of(sim, case):
     return Outcome(sim.failure, classes, nontrivial, info)
 
 
+@st.composite
+def config(draw):
+    cfg = draw(hist.sim_config(True))
+    cfg['long_passwords'] = draw(st.integers(0, 3)) == 0
+    return cfg
+
+
 def machine(tier, ctx):
     import sys
-    return hist.make_machine(sys.modules[__name__], tier, ctx, checks=CHECKS, encrypted=True,
+    return hist.make_machine(sys.modules[__name__], tier, ctx, checks=CHECKS, encrypted=True, cfg_strategy=config(),
                              weights=dict(snapshot=4, delete=1, clean=1, restore=1, list=2, concurrent=0, add_user=4,
                                           cross=2, unlock_wrong=1))
 
